@@ -1,7 +1,401 @@
-//! C04 — not implemented yet.
-use vcore::Ctx;
+//! C04 — incremental builds produce exactly what a clean build produces.
+//!
+//! Model-based search over histories.  A generated multi-file project
+//! (`vproj`, `[build] incremental = true`) is taken through 4–12 steps: edit
+//! operations and `veryl build` / `veryl check` (sometimes `veryl test`, which
+//! only acts on the cache and is not compared).  Before every compared
+//! command the whole project directory is saved (`cp -a`, mtimes kept); the
+//! command first runs at the project path with `.build/cache` removed (fresh
+//! cache), its result is recorded and thrown away, the saved state is put back
+//! and the same command runs on the real (warm) cache.  The history continues
+//! on the warm project only.
+//!
+//! Oracle (exactly what the property names): equal exit status, equal
+//! multiset of parsed diagnostics (severity, code, message, file, spans),
+//! byte-equal emitted `.sv`, `.sv.map` and filelist files.  Log lines, timing,
+//! `.build/**`, `Veryl.lock` and file mtimes are not compared.
 
-pub fn run(_ctx: &Ctx) {
-    println!("INCONCLUSIVE property=C04: check not implemented");
-    std::process::exit(2);
+use serde_json::json;
+use std::collections::{BTreeMap, BTreeSet};
+use vcore::{CaseCfg, Ctx, Draw, Outcome, hash_str};
+use vproj::cli::{CliResult, OutTree, Workspace, diff_trees};
+use vproj::edit::{EditOp, EditPolicy, Editor, OutKind};
+use vproj::model::Project;
+use vproj::toml::{SrcMap, Target};
+use vproj::{GenOpts, gen_project};
+
+#[derive(Clone, Copy, PartialEq, Debug)]
+enum Cmd {
+    Build,
+    Check,
+    Test,
+}
+
+impl Cmd {
+    fn args(&self) -> Vec<&'static str> {
+        match self {
+            Cmd::Build => vec!["build"],
+            Cmd::Check => vec!["check"],
+            Cmd::Test => vec!["test", "--backend", "interpret"],
+        }
+    }
+    fn name(&self) -> &'static str {
+        match self {
+            Cmd::Build => "build",
+            Cmd::Check => "check",
+            Cmd::Test => "test",
+        }
+    }
+}
+
+/// Expected emitted `.sv` / `.sv.map` path of a source file (None for bundles
+/// and examples).
+fn out_paths(p: &Project, rel: &str) -> Option<(String, String)> {
+    let inner = rel.strip_prefix("src/")?;
+    let stem = inner.strip_suffix(".veryl")?;
+    let sv = match &p.cfg.target {
+        Target::Source => format!("src/{stem}.sv"),
+        Target::Directory(t) => format!("{t}/{stem}.sv"),
+        Target::Bundle(_) => return None,
+    };
+    let map = match &p.cfg.sourcemap {
+        SrcMap::Directory(m) => match &p.cfg.target {
+            Target::Directory(_) => format!("{m}/{stem}.sv.map"),
+            _ => format!("{m}/{sv}.map"),
+        },
+        _ => format!("{sv}.map"),
+    };
+    Some((sv, map))
+}
+
+/// What happened to files since the last successful warm build, for naming
+/// the root cause of a stale output.
+#[derive(Default, Clone)]
+struct Since {
+    /// sources replaced by an older-mtime version
+    older: BTreeSet<String>,
+    /// a command that stores hashes without emitting ran after such a replacement
+    /// (`check`, or a build that failed / did not emit)
+    older_then_hashed: BTreeSet<String>,
+    deleted_maps: BTreeSet<String>,
+    /// generic context and disk text at the last successful warm build
+    ok_ctx: BTreeMap<String, String>,
+    ok_disk: BTreeMap<String, String>,
+}
+
+fn explain_output_diff(
+    p: &Project,
+    ed: &Editor,
+    since: &Since,
+    cold: &OutTree,
+    warm: &OutTree,
+) -> (String, Vec<String>) {
+    // every differing output file gets a cause; "unexplained" wins
+    let mut keys: BTreeSet<&String> = cold.keys().collect();
+    keys.extend(warm.keys());
+    let ctx_now = p.generic_context();
+    let mut causes: Vec<(String, String)> = vec![];
+    for k in keys {
+        if cold.get(k) == warm.get(k) {
+            continue;
+        }
+        let kind = if k.ends_with(".sv.map") {
+            "map"
+        } else if k.ends_with(".sv") {
+            "sv"
+        } else {
+            "filelist"
+        };
+        // which source does this output belong to?
+        let src = p
+            .live_files()
+            .into_iter()
+            .map(|fi| p.files[fi].rel.clone())
+            .find(|rel| out_paths(p, rel).is_some_and(|(sv, map)| &sv == k || &map == k));
+        let mut cause = format!("unexplained:{kind}");
+        if let Some(src) = &src {
+            let unchanged = since.ok_disk.get(src).is_some() && since.ok_disk.get(src) == ed.disk.get(src);
+            if since.older_then_hashed.contains(src) {
+                cause = "older-mtime-after-check".into();
+            } else if kind == "map" && since.deleted_maps.contains(k) && warm.get(k).is_none() {
+                cause = "deleted-map-not-regenerated".into();
+            } else if unchanged && since.ok_ctx.get(src) != ctx_now.get(src) {
+                cause = "generic-definer-not-reemitted".into();
+            }
+        }
+        causes.push((k.clone(), cause));
+    }
+    let sig = causes
+        .iter()
+        .find(|(_, c)| c.starts_with("unexplained"))
+        .or(causes.first())
+        .map(|(_, c)| c.clone())
+        .unwrap_or_else(|| "unexplained:none".into());
+    (
+        format!("output/{sig}"),
+        causes.into_iter().map(|(k, c)| format!("{k}: {c}")).collect(),
+    )
+}
+
+fn diag_lines(r: &CliResult) -> Vec<String> {
+    r.diag_multiset().iter().map(|d| d.short()).collect()
+}
+
+fn one_history(d: &mut Draw, thorough: bool) -> Outcome {
+    let gopts = GenOpts {
+        max_items: if thorough { 12 } else { 9 },
+        ..GenOpts::default()
+    };
+    let pol = EditPolicy {
+        output_edit: false,
+        gen_opts: gopts.clone(),
+        ..EditPolicy::default()
+    };
+    let mut p = gen_project(d, &gopts);
+    p.cfg.incremental = true;
+    let ws = Workspace::new("c04", &p.cfg.name);
+    let mut ed = Editor::create(&p, &ws);
+    let initial = p.summary();
+
+    let n_steps = d.usize_in(4, 12);
+    let mut steps: Vec<String> = vec![];
+    let mut classes: BTreeSet<String> = BTreeSet::new();
+    let mut edits = 0usize;
+    let mut nontrivial = false;
+    let mut since = Since::default();
+    let mut check_pending = false; // a check ran since the last build
+    let mut first_cmd = true;
+    let mut warm_cmds = 0usize;
+
+    for i in 0..n_steps {
+        let is_cmd = i == 0 || i + 1 == n_steps || d.chance(2, 5);
+        if !is_cmd {
+            let op = ed.draw(d, &p, &ws, &pol);
+            let a = ed.apply(d, &mut p, &ws, &op, &pol);
+            edits += 1;
+            for c in &a.classes {
+                classes.insert(c.to_string());
+            }
+            match &op {
+                EditOp::ReplaceOlder { file } => {
+                    since.older.insert(p.files[*file].rel.clone());
+                }
+                EditOp::DeleteOutput { rel, kind: OutKind::Map } => {
+                    since.deleted_maps.insert(rel.clone());
+                }
+                _ => {}
+            }
+            // any later write of the file with a current mtime ends the older-mtime situation
+            for t in &a.touched {
+                if !matches!(op, EditOp::ReplaceOlder { .. }) {
+                    since.older.remove(t);
+                    since.older_then_hashed.remove(t);
+                }
+            }
+            if let EditOp::TouchSource { file } = &op {
+                since.older.remove(&p.files[*file].rel);
+                since.older_then_hashed.remove(&p.files[*file].rel);
+            }
+            steps.push(format!("edit  {}", a.desc));
+            continue;
+        }
+        let cmd = if first_cmd {
+            [Cmd::Build, Cmd::Check][d.weighted(&[7, 3])]
+        } else {
+            [Cmd::Build, Cmd::Check, Cmd::Test][d.weighted(&[6, 4, if p.has_tests() { 1 } else { 0 }])]
+        };
+        if cmd == Cmd::Test {
+            // acts on the cache only; its own results are not part of the property
+            let r = ws.veryl(&cmd.args());
+            if r.timed_out {
+                return Outcome::skip("a command timed out");
+            }
+            classes.insert("test_step".into());
+            steps.push(format!("cmd   veryl test (not compared) exit={:?}", r.code));
+            continue;
+        }
+        // ---- cold run on a fresh cache, at the same path -------------------
+        ws.save_state("keep");
+        ws.drop_cache();
+        let cold = ws.veryl(&cmd.args());
+        let cold_out = ws.outputs();
+        ws.restore_state("keep", true);
+        // ---- warm run -------------------------------------------------------
+        let warm = ws.veryl(&cmd.args());
+        let warm_out = ws.outputs();
+        if cold.timed_out || warm.timed_out {
+            return Outcome::skip("a command timed out");
+        }
+        steps.push(format!(
+            "cmd   veryl {}: exit cold={:?} warm={:?}, restored {:?}, diags {}",
+            cmd.name(),
+            cold.code,
+            warm.code,
+            warm.restored,
+            warm.diags.len()
+        ));
+        if first_cmd {
+            first_cmd = false;
+            // generator acceptance: the fresh project analyses without any diagnostic
+            let clean = warm.code == Some(0) && warm.diags.is_empty() && !warm.panicked;
+            if !clean && cold.code == warm.code && cold.diag_multiset() == warm.diag_multiset() {
+                let why = warm
+                    .diags
+                    .iter()
+                    .find(|x| !x.code.is_empty())
+                    .map(|x| x.code.clone())
+                    .unwrap_or_else(|| format!("exit {:?}", warm.code));
+                return Outcome::skip(format!("generated project not accepted ({why})"));
+            }
+        } else {
+            warm_cmds += 1;
+        }
+        if cold.panicked && warm.panicked {
+            return Outcome::skip("both runs panic (C11's domain)");
+        }
+        let mk_input = |extra: serde_json::Value| {
+            json!({
+                "project": initial,
+                "steps": steps,
+                "command": cmd.name(),
+                "cold": {"exit": cold.code, "diags": diag_lines(&cold), "stderr_tail": cold.tail(12)},
+                "warm": {"exit": warm.code, "diags": diag_lines(&warm), "restored": format!("{:?}", warm.restored), "stderr_tail": warm.tail(12)},
+                "detail": extra,
+                "script": ws.script(),
+            })
+        };
+        // ---- oracle ---------------------------------------------------------
+        if cold.code != warm.code {
+            let sig = if warm.panicked && !cold.panicked {
+                "exit-status/warm-run-panics".to_string()
+            } else {
+                format!("exit-status/{}", cmd.name())
+            };
+            return Outcome::fail(
+                sig,
+                format!(
+                    "veryl {} exits {:?} on a fresh cache but {:?} with the fragment cache, after:\n  {}\nwarm stderr tail:\n{}",
+                    cmd.name(),
+                    cold.code,
+                    warm.code,
+                    steps.join("\n  "),
+                    warm.tail(15)
+                ),
+                mk_input(json!(null)),
+            );
+        }
+        let (cd, wd) = (cold.diag_multiset(), warm.diag_multiset());
+        if cd != wd {
+            let errs = |v: &Vec<vproj::Diag>| -> Vec<vproj::Diag> {
+                v.iter().filter(|x| x.severity == "error").cloned().collect()
+            };
+            let sig = if warm.code != Some(0) && errs(&cd) == errs(&wd) && !errs(&cd).iter().all(|e| e.code.is_empty()) {
+                // the run failed on an error; only the accompanying warnings differ
+                "diagnostics/warnings-differ-on-run-aborted-by-error"
+            } else {
+                "diagnostics/unexplained"
+            };
+            let only_cold: Vec<String> = cd.iter().filter(|x| !wd.contains(x)).map(|x| x.short()).collect();
+            let only_warm: Vec<String> = wd.iter().filter(|x| !cd.contains(x)).map(|x| x.short()).collect();
+            return Outcome::fail(
+                sig,
+                format!(
+                    "veryl {} reports different diagnostics with the fragment cache (restored {:?}).\nonly on a fresh cache: {:#?}\nonly with the cache: {:#?}\ncounts: cold {} / warm {}\nafter:\n  {}",
+                    cmd.name(),
+                    warm.restored,
+                    only_cold,
+                    only_warm,
+                    cd.len(),
+                    wd.len(),
+                    steps.join("\n  ")
+                ),
+                mk_input(json!({"only_cold": only_cold, "only_warm": only_warm})),
+            );
+        }
+        if let Some(diff) = diff_trees(&cold_out, &warm_out, "fresh-cache", "cached") {
+            let (sig, causes) = explain_output_diff(&p, &ed, &since, &cold_out, &warm_out);
+            return Outcome::fail(
+                sig,
+                format!(
+                    "veryl {} leaves different emitted files with the fragment cache (restored {:?}):\n{}causes: {:#?}\nafter:\n  {}",
+                    cmd.name(),
+                    warm.restored,
+                    diff,
+                    causes,
+                    steps.join("\n  ")
+                ),
+                mk_input(json!({"diff": diff, "causes": causes})),
+            );
+        }
+        // ---- bookkeeping ----------------------------------------------------
+        if let Some((k, n)) = warm.restored
+            && k > 0
+            && edits > 0
+        {
+            nontrivial = true;
+            classes.insert("restored_after_edit".into());
+            if !warm.warnings().is_empty() {
+                classes.insert("warning_reported_with_restored_files".into());
+                if k == n {
+                    classes.insert("warning_replayed_all_files_restored".into());
+                }
+            }
+            if k < n {
+                classes.insert("partial_restore".into());
+            }
+        }
+        if warm.code != Some(0) {
+            classes.insert(format!("{}_failed", cmd.name()));
+        }
+        match cmd {
+            Cmd::Check => {
+                check_pending = true;
+                // check stores the hashes of what it analysed
+                if warm.errors().is_empty() {
+                    for s in since.older.clone() {
+                        since.older_then_hashed.insert(s);
+                    }
+                }
+            }
+            Cmd::Build => {
+                if check_pending && edits > 0 {
+                    classes.insert("check_then_build".into());
+                }
+                check_pending = false;
+                if warm.code == Some(0) {
+                    since = Since {
+                        ok_ctx: p.generic_context(),
+                        ok_disk: ed.disk.clone(),
+                        ..Since::default()
+                    };
+                }
+            }
+            Cmd::Test => {}
+        }
+    }
+    let _ = warm_cmds;
+    let text = format!("{initial}\n{}", steps.join("\n"));
+    Outcome::pass(
+        hash_str(&text),
+        nontrivial,
+        classes.into_iter().collect(),
+        text,
+    )
+}
+
+pub fn run(ctx: &Ctx) {
+    let thorough = !ctx.is_quick();
+    let n = ctx.scale(240, 6000);
+    ctx.run("history", CaseCfg::cases(n).choices(1200).timeout_s(900), move |d| {
+        one_history(d, thorough)
+    });
+    ctx.assume("the `veryl` binary is /repo's own main.rs built by harness package vcli with the harness profile (opt-level 2, no debug assertions)");
+    ctx.assume("fresh cache = the same project directory, same path, same mtimes, with .build/cache removed (.build/info.toml kept); both runs share XDG_CACHE_HOME (std sources)");
+    ctx.assume("compared: exit status; multiset of (severity, code, message, file, label spans) parsed from the NO_GRAPHICS report; bytes of every *.sv, *.sv.map, *.f, *.list.rb outside .build.  Not compared: log lines (incl. `Restored k/n`), help/snippet text, .build/**, Veryl.lock, mtimes, `veryl test` results");
+    ctx.assume("edited sources get an explicit fine-grained mtime (now), so 'edited after the last build' does not depend on the kernel's coarse mtime clock; older-mtime replacements use 2020-01-01 + k s");
+    ctx.assume("hand-edited outputs are outside the property's edit list and are not generated here; deleted outputs and touched outputs are");
+    ctx.finish(
+        "exploration",
+        "vproj projects (2-7 files: packages, interfaces, modules, generics, $sv members, #[test] modules, examples/, sub-directories, Veryl.toml variants, incremental = true) x histories of 4-12 steps (edit operations of vproj::edit, veryl build/check, rarely veryl test); non-trivial = the history has a warm command that printed `Restored k/n` with k >= 1 after at least one edit; distinct by project+history text",
+    );
 }
